@@ -472,4 +472,23 @@ def Ev.mentions (mc : Bool) (p : Prefix) : Ev → Bool
 def singleSafi (h : History) (p : Prefix) : Bool :=
   !(h.any (Ev.mentions false p)) || !(h.any (Ev.mentions true p))
 
+/-! ### Vocabulary of C02 / C03 (session-level events) -/
+
+/-- Is the event a session-level withdrawal of source `m`? -/
+def Ev.downs (m : Mui) : Ev → Bool
+  | .down m' => m' = m
+  | .downBulk ms => ms.contains m
+  | .upd .. => false
+
+/-- Does the event announce `p` in SAFI table `mc` on behalf of source `m`? -/
+def Ev.announces (mc : Bool) (p : Prefix) (m : Mui) : Ev → Bool
+  | .upd m' (.ok _ ann _) => m' = m && ann.contains ⟨p, safiOf mc⟩
+  | _ => false
+
+/-- Can the event change what is reported for key `(mc, p, m)` at all? -/
+def Ev.touches (mc : Bool) (p : Prefix) (m : Mui) (e : Ev) : Bool :=
+  e.downs m || (match e with
+    | .upd m' (.ok _ ann wd) => m' = m && (ann.contains ⟨p, safiOf mc⟩ || wd.contains ⟨p, safiOf mc⟩)
+    | _ => false)
+
 end Rotonda.Rib
